@@ -179,9 +179,11 @@ def check_posterior(run, s, rng, blobs, tier, what):
             u0 = rng.random()
             orig = np.random.random
             np.random.random = lambda *a, **k: u0
-            opts = dict(resample=resample, trim_importance_weights=trim, return_blobs=rb, return_logw=rl,
+            # the four flags as Python bools, numpy booleans (what a comparison on arrays yields) or 0/1 integers: truthiness is what counts
+            as_ = [bool, np.bool_, int][(int(resample) + 2 * int(trim) + int(ess_trim * 100)) % 3]
+            opts = dict(resample=as_(resample), trim_importance_weights=as_(trim), return_blobs=as_(rb), return_logw=as_(rl),
                         ess_trim=ess_trim, bins_trim=bins_trim)
-            w2 = dict(what, **{k: (v if not isinstance(v, float) else v) for k, v in opts.items()}, u0=u0)
+            w2 = dict(what, **{k: (v if isinstance(v, float) else repr(v)) for k, v in opts.items()}, u0=u0)
             try:
                 out = s.posterior(**opts)
             except Exception as e:
@@ -374,6 +376,19 @@ def resume_probe(run, tier, rng):
             continue
         run.case(key=("resume", rep), nontrivial=True)
         check_run(run, s2, 90, what)
+        # the final checkpoint is the state run() returned with: loaded into a fresh sampler it reports the same evidence, which is the
+        # mixture evidence at beta = 1 of the history it holds
+        try:
+            s5 = make_sampler(rng, False, **dict(cfg))
+            s5.load_state(str(ck))
+            _, lz5 = s5.state.compute_logw_and_logz(1.0)
+            ev5, ev0 = float(s5.evidence()[0]), float(s.evidence()[0])
+            run.case(key=("final-checkpoint", rep), nontrivial=True)
+            if abs(ev5 - float(lz5)) > 1e-9 * max(1.0, abs(float(lz5))) or abs(ev5 - ev0) > 1e-12 * max(1.0, abs(ev0)):
+                run.fail("evidence-not-mis", f"the final checkpoint of run(n_total=60, save_every=1) loaded into a fresh sampler reports evidence {ev5!r}; the sampler that "
+                         f"wrote it reports {ev0!r} and the mixture formula on the restored history gives {float(lz5)!r}", **what)
+        except Exception as e:
+            run.fail("run-raises", f"loading the final checkpoint raised {type(e).__name__}: {e}", **what)
         # a resume that has nothing left to do: the last numbered checkpoint (already at beta = 1) with an n_total below the ESS it holds
         cks = sorted(work.glob("r_[0-9]*.state"), key=lambda p_: int(p_.stem.split("_")[1]))
         if cks:
